@@ -6,17 +6,43 @@ use crate::val::*;
 use jmespath::{Rcvar, ToJmespath, Variable};
 use serde_json::{json, Value};
 
-fn both<T: ToJmespath + Clone>(x: T) -> Value {
+/// Deeply nested values are reported by their spine (Convert.tla DeepVal): the container kind at each level, outermost first
+/// (97 = array of one element, 111 = object with the single key "k"), and the leaf -- the same information, without the nesting.
+fn tag_spine(v: &Variable) -> Value {
+    let mut spine = vec![];
+    let mut cur: Rcvar = Rcvar::new(v.clone());
+    loop {
+        let next = match &*cur {
+            Variable::Array(a) if a.len() == 1 => {
+                spine.push(97);
+                a[0].clone()
+            }
+            Variable::Object(m) if m.len() == 1 && m.contains_key("k") => {
+                spine.push(111);
+                m["k"].clone()
+            }
+            _ => break,
+        };
+        cur = next;
+    }
+    json!({"t":"deep","spine":spine,"leaf":tag_var(&cur)})
+}
+
+fn both_with<T: ToJmespath + Clone>(x: T, tag: fn(&Variable) -> Value) -> Value {
     let a = match x.clone().to_jmespath() {
-        Ok(v) => json!({"ok":tag_var(&v)}),
+        Ok(v) => json!({"ok":tag(&v)}),
         Err(_) => json!({"err":true}),
     };
     let expr = jmespath::compile("@").unwrap();
     let b = match expr.search(x) {
-        Ok(v) => json!({"ok":tag_var(&v)}),
+        Ok(v) => json!({"ok":tag(&v)}),
         Err(_) => json!({"err":true}),
     };
     json!({"image":a,"searched":b})
+}
+
+fn both<T: ToJmespath + Clone>(x: T) -> Value {
+    both_with(x, tag_var)
 }
 
 pub fn run_case(case: &Value) -> Value {
@@ -25,9 +51,25 @@ pub fn run_case(case: &Value) -> Value {
     let n = &case["node"];
     let iv = n.get("v").and_then(|x| x.as_str()).unwrap_or("0");
     let out = guarded(|| {
-        let jv = || untag(&case["json"]);
+        // a value nested `d` levels deep is built here, in code (Convert.tla DeepVal): no JSON text of that depth can be parsed
+        let deep = |d: u64, shape: &str| {
+            let mut v = json!(7);
+            for level in 1..=d {
+                v = if shape == "arr" || (shape == "mix" && level % 2 == 0) { Value::Array(vec![v]) } else { json!({"k":v}) };
+            }
+            v
+        };
+        let jv = || match case.get("deep") {
+            Some(dp) => deep(dp["d"].as_u64().unwrap_or(0), dp["shape"].as_str().unwrap_or("arr")),
+            None => untag(&case["json"]),
+        };
         let var = || Variable::from_json(&jv().to_string()).unwrap_or(Variable::Null);
         match ty {
+            "Value" if case.get("deep").is_some() => both_with(jv(), tag_spine),
+            "&Value" if case.get("deep").is_some() => {
+                let v = jv();
+                both_with(&v, tag_spine)
+            }
             "Value" => both(jv()),
             "&Value" => {
                 let v = jv();
